@@ -35,7 +35,9 @@ AstSources ==
     onebyte |-> <<T(<<97>>)>>,
     \* comments are the only tag syntax in the source
     cmt    |-> <<T(<<97>>), Comment(<<32, 99, 32>>), T(<<98>>), Comment(<<>>)>>,
-    braces |-> <<T(<<97, 32, 123, 32, 98, 32, 125, 32, 37, 32, 35>>)>> ]
+    braces |-> <<T(<<97, 32, 123, 32, 98, 32, 125, 32, 37, 32, 35>>)>>,
+    \* line endings of every kind, in text, in a string literal, in a verbatim body
+    crlf   |-> <<T(<<97, 13, 10, 98, 13, 10>>), PrintS(Var("x")), T(<<13, 10, 13, 13, 10, 10>>), PrintS(LS(<<99, 13, 10, 100>>)), Verbatim(<<101, 13, 10>>), T(<<13, 10>>)>> ]
 Helper == <<T(<<60>>), Block("bb", <<T(<<68>>)>>), PrintS(Var("x")), T(<<62>>)>>         \* t2: included / extended
 \* ... and big literal sources (pad tokens expanded by the Go side)
 PadSources == [ p65535 |-> 65535, p65536 |-> 65536, p4097 |-> 4097 ] @@ (IF Big THEN [p1m |-> 1048576] ELSE [pnone |-> 0])
